@@ -12,7 +12,7 @@ pair list, any block number, any hash function — the result is never `panic`; 
 at least one pair per call, so their recursion depth is bounded by the number of pairs (termination; the functions are
 accepted by Lean's structural recursion checker).
 -/
-import Verif.Model.WmptProof
+import Verif.Lemmas.WmptDecode
 namespace Verif.Props.C15Wmpt
 open Verif.Wmpt
 
@@ -209,26 +209,6 @@ theorem verifyPairs_total (H : Bytes → Bytes) (ps : List PairD) (b : Nat) : (v
     cases hv : verifyProof H ps b with
     | err e => rw [hv] at this; cases e <;> simp_all [Res.isPanic]
     | ok r => obtain ⟨n, v, rest⟩ := r; simp [Res.isPanic]
-
-private theorem deserKids_total (H : Bytes → Bytes) (rec : List PairD → Res (WN × List PairD))
-    (hrec : ∀ ps, (rec ps).isPanic = false) (is : List Nib) (ch : Nib → WN) (ps : List PairD) :
-    (deserKids H rec is ch ps).isPanic = false := by
-  induction is generalizing ch ps with
-  | nil => simp [deserKids, Res.isPanic]
-  | cons i tl ih =>
-    unfold deserKids
-    by_cases hn : (ch i).isNil
-    · simp only [hn, if_true]; exact ih ch ps
-    · simp only [hn]
-      have := hrec ps
-      cases hr : rec ps with
-      | err e => rw [hr] at this; cases e <;> simp_all [Res.isPanic]
-      | ok r =>
-        obtain ⟨c, ps'⟩ := r
-        simp only
-        by_cases hh : (ch i).hashField H ≠ c.hashField H
-        · simp [hh, Res.isPanic]
-        · simp only [hh, if_false]; exact ih _ _
 
 /-- `deserializeTrie`: no panic for any pair list (null pairs included: fix 990a210) and any recursion budget -/
 theorem deserializeTrie_total (H : Bytes → Bytes) (fuel : Nat) (ps : List PairD) :
